@@ -165,6 +165,11 @@ type Engine struct {
 	CompactionPlan CompactionPlanner
 	FileStore      *FileStore
 
+	// snapshotSegments are the closed WAL segments covered by the current cache snapshot.
+	// A snapshot that failed to be written is retained by the cache and retried; it still
+	// only covers the segments that were closed when it was taken.
+	snapshotSegments []string
+
 	MaxPointsPerBlock int
 
 	// CacheFlushMemorySizeThreshold specifies the minimum size threshold for
@@ -1937,9 +1942,18 @@ func (e *Engine) WriteSnapshot() (err error) {
 			}
 		}
 
+		retained := e.Cache.hasRetainedSnapshot()
 		snapshot, err = e.Cache.Snapshot()
 		if err != nil {
 			return
+		}
+
+		if retained {
+			// Retry of a snapshot whose write failed: the segments closed since then hold
+			// writes that are only in the live cache and must not be removed with it.
+			segments = e.snapshotSegments
+		} else {
+			e.snapshotSegments = segments
 		}
 
 		return
